@@ -1,13 +1,18 @@
 #!/bin/bash
-# usage: tools/try_patch.sh <patch.diff> <Cxx> [tier]   -- runs a check against a scratch copy of /repo with the patch applied
+# usage: tools/try_patch.sh <patch.diff> <Cxx> [tier]
+# Runs a check against a scratch copy of /repo with the patch applied, from a scratch copy of /verif
+# (so that neither /repo, nor /verif's generated constants, build outputs and evidence are touched).
 set -e
 P=$(realpath "$1"); PROP=$2; TIER=${3:-quick}
+HERE=$(cd "$(dirname "$0")/.." && pwd)
 D=$(mktemp -d /var/tmp/mrepo_XXXXXX)
+V=$(mktemp -d /var/tmp/vcopy_XXXXXX)
+trap 'rm -rf "$D" "$V"' EXIT
 cp -r /repo/dataflows "$D/"; [ -d /repo/data ] && ln -s /repo/data "$D/data"
-(cd "$D" && patch -p1 -s < "$P") || { echo "PATCH DOES NOT APPLY"; rm -rf "$D"; exit 2; }
-cd "$(dirname "$0")/.."
+(cd "$D" && patch -p1 -s < "$P") || { echo "PATCH DOES NOT APPLY"; exit 2; }
+rsync -a --exclude .git --exclude replays --exclude seeded --exclude corpus_tmp "$HERE/" "$V/"
+cd "$V"
 set +e
 VERIF_REPO="$D" ./check "$PROP" --tier "$TIER" 2>&1 | grep -v "conda" | tail -6
 RC=${PIPESTATUS[0]}
-rm -rf "$D"
 exit $RC
